@@ -251,7 +251,7 @@ func sameTarMembers(x, y outcome) bool {
 
 type inputs struct {
 	dir                                                                  string
-	nt, nt2, ntPhy, aa, orfSeqs, refOrf, pair, part, mapf, counts, sites string
+	nt, nt2, ntPhy, aa, orfSeqs, refOrf, pair, part, mapf, mapShift, counts, sites string
 	names, aaAli, ntForCodon, ntApp                                      string
 	ntRows                                                               gen.Rows
 }
@@ -420,6 +420,13 @@ func mkInputs(r *gen.Rand, dir string, variant int) inputs {
 	}
 	in.mapf = filepath.Join(dir, "map.txt")
 	os.WriteFile(in.mapf, []byte(mb.String()), 0644)
+	// a map that shifts the names along the alignment (every new name is the current name of another row)
+	var sb2 strings.Builder
+	for i, nm := range names {
+		fmt.Fprintf(&sb2, "%s\t%s\n", nm, names[(i+1)%len(names)])
+	}
+	in.mapShift = filepath.Join(dir, "mapshift.txt")
+	os.WriteFile(in.mapShift, []byte(sb2.String()), 0644)
 	in.counts = filepath.Join(dir, "counts.txt")
 	os.WriteFile(in.counts, []byte(cb.String()), 0644)
 	in.names = filepath.Join(dir, "names.txt")
@@ -595,6 +602,8 @@ var table = []entry{
 	{"trim-name-auto", false, func(in inputs) []string { return a("trim", "name", "-i", in.nt, "-a", "-m", "map.out") }},
 	{"trim-seq", false, func(in inputs) []string { return a("trim", "seq", "-i", in.nt, "-n", "5", "-s") }},
 	{"rename", false, func(in inputs) []string { return a("rename", "-i", in.nt, "-m", in.mapf) }},
+	{"rename-shifted-names", false, func(in inputs) []string { return a("rename", "-i", in.nt, "-m", in.mapShift) }},
+	{"rename-shifted-names-phylip", false, func(in inputs) []string { return a("rename", "-i", in.ntPhy, "-p", "-m", in.mapShift) }},
 	{"rename-regexp", false, func(in inputs) []string {
 		return a("rename", "-i", in.nt, "-e", "S(\\d+)", "-b", "T$1", "-m", "map.out")
 	}},
